@@ -256,9 +256,25 @@ where
                     take_name,
                 )));
             }
-            for h in handles {
+            for (ci, h) in handles.into_iter().enumerate() {
                 if let Err(e) = h.await {
-                    w(|w| w.harness_error("client_panicked", format!("{e}")));
+                    w(|w| {
+                        if w.in_get.get(&ci).copied().unwrap_or(false) {
+                            // whatever the server answers to a recycle, the connection is discarded
+                            // and replaced: get() has no business panicking
+                            if w.violation.is_none() {
+                                let step = w.step;
+                                w.violation = Some(simcore::Violation::at(
+                                    world::PROP,
+                                    world::CL_BAD,
+                                    format!("pool.get() of client c{ci} panicked instead of discarding and replacing the connection: {e}"),
+                                    step,
+                                ));
+                            }
+                        } else {
+                            w.harness_error("client_panicked", format!("{e}"));
+                        }
+                    });
                 }
             }
             // let the servers see the EOF of dropped (taken) connections
